@@ -4,7 +4,7 @@ import CelloGen.Cfg
 import Driver.Common
 /- driver for engine `cfg` (C18): interprets the op files of harness/h_cfg.c on the model of Cello/Config.lean under the
    default configuration and prints the `O` lines the harness prints; it also runs the same program under the seven other
-   configurations and reports (`S` line, and an `O model-config-divergence` line that no harness prints) whether outcome
+   configurations (`hexit`: the destructor ledger at process end, `Keep.kexit`, per configuration) and reports (`S` line, and an `O model-config-divergence` line that no harness prints) whether outcome
    list and observable contents agree — the executable form of theorem C18_config_independent.
    Run-time types (`ty tybig tyre tyq tyshow tydel ob oq od`): Cello/ConfigType.lean — each configuration builds the type object
    word by word with the index expressions regenerated from src/Type.c, evaluated under ITS constants, and answers through it. -/
@@ -176,7 +176,7 @@ def parseKind (t : String) : Option Kind :=
   | "q" => some .treeK | "u" => some .tuple | "c" => some .chain | "s" => some .tls | "w" => some .thread | _ => none
 
 def keepOpNames : List String :=
-  ["hnew", "hput", "hget", "hread", "hrem", "hrel", "hshrink", "hreserve", "hchurn", "hdrop", "hdel", "hrun"]
+  ["hnew", "hput", "hget", "hread", "hrem", "hrel", "hshrink", "hreserve", "hchurn", "hdrop", "hdel", "hrun", "hexit"]
 
 /-- the keep operations (`h…`): syntax exactly as harness/h_cfg.c checks it -/
 def parseKeep (ws : List String) : Option Keep.KOp :=
@@ -283,6 +283,13 @@ def showOut : Out → Option String
   | .nest site n => some s!"nest {site} {n}"
   | .silent => none
 
+/-- `hexit`: process exit in a forked child (the parent's state stays as it is) — `Keep.kexit` of each configuration on ITS state.
+    An `I` line says when the configurations end with different ledgers (known finding KF-C18-exit-finalisation). -/
+def exitLines (cfgs : List Cfg) (ksts : List Keep.KSt) : IO Unit := do
+  let ls := (cfgs.zip ksts).map (fun p => (Keep.ledger (Keep.kexit p.1 p.2)).length)
+  IO.println s!"O hexit made={(ksts.head!).used.length} finalised={ls.head!}"
+  if !(ls.all (fun n => n == ls.head!)) then IO.println s!"I exit-ledger-differs {ls}"
+
 def main (args : List String) : IO Unit := do
   let lines ← Driver.inputLines args
   let cfgs := Cfg.all
@@ -329,7 +336,11 @@ def main (args : List String) : IO Unit := do
       continue
     if keepOpNames.contains (ws.headD "") then
       match parseKeep ws with
-      | none => IO.println "O bad-op"; nBad := nBad + 1
+      | none =>
+        -- `hexit` is not a step of the model: an observation of `Keep.kexit` on the current states
+        let isExit := ws == ["hexit"]
+        if isExit then exitLines cfgs ksts else IO.println "O bad-op"
+        nBad := nBad + (if isExit then 0 else 1)
       | some kop =>
         let rs := (cfgs.zip ksts).map (fun p => Keep.kstep p.1 kop p.2)
         let r0 := rs.head!
